@@ -15,7 +15,7 @@ from mc import lattice
 from oracles import poe, se3
 
 MOD = "checks.c06"
-STRUCT = ["move:B1", "move:B2", "tool:X:g1", "tool:X2:None", "restore"]
+STRUCT = ["move:B1", "move:B2", "tool:X:g1", "tool:X2:None", "tool:X3:None", "restore"]
 WBASIS = [np.eye(6)[i] for i in range(6)] + [np.array([1.5, -2.0, 0.7, 3.0, -1.0, 2.5])]
 
 
@@ -39,6 +39,7 @@ def apply_hist(arm, ref, hist, TH):
     from basic_robotics.general import tm
     X = se3.T_from([0.2, 0.1, -0.3], [0.1, 0.2, 0.3])
     X2 = se3.T_from([0.0, 0.0, 0.0], [0.0, 0.0, 0.25])
+    X3 = se3.T_from([0.0, 0.0, np.pi / 3], [0.0, 0.0, 0.0])     # turns the tool frame about the tool point only
     for h in hist:
         parts = h.split(":")
         if parts[0] == "move":
@@ -47,7 +48,7 @@ def apply_hist(arm, ref, hist, TH):
                 arm.move(tm(B.copy()))
             ref.base = B.copy()
         elif parts[0] == "tool":
-            Xm = X if parts[1] == "X" else X2
+            Xm = {"X": X, "X2": X2, "X3": X3}[parts[1]]
             if parts[2] == "None":
                 used = arm.getEEPos().gTM()
                 arm.setArbitraryHome(tm((used @ Xm).copy()), None)
@@ -197,7 +198,7 @@ def run(ctx):
     with ctx.pool() as pool:
         m = lattice.run(ctx, pool, MOD, "work", len(arms) * len(H), nshards=pool.workers * 2, part="jacobians")
     lattice.fill(ctx, [("jacobians", m)],
-                 "arms x all structural histories of length <= 2 over {move x2, setArbitraryHome x2, restoreOriginalEE} x joint-vector palette; "
+                 "arms x all structural histories of length <= 2 over {move x2, setArbitraryHome x3 (offset+turn, offset only, turn only), restoreOriginalEE} x joint-vector palette; "
                  "per point: 6 Jacobian variants, all link indices, velocity and statics on the complete rate / wrench bases (+1 generic each); "
                  "non-trivial = non-zero joint vector or non-empty history",
                  {"arms": len(arms), "histories": len(H), "wrench_basis": len(WBASIS)})
